@@ -147,6 +147,13 @@ func oneConfig(run *lib.Run, r *lib.RNG, idx int) {
 			return lib.Continue
 		}
 		if req.Method == "CONNECT" {
+			switch {
+			case strings.HasPrefix(req.Target, "closes."):
+				return lib.Close // the CONNECT is read and the connection dropped without an answer
+			case strings.HasPrefix(req.Target, "garbage."):
+				oc.Write([]byte("\x00\x01 this is not http\r\n\r\n"))
+				return lib.Close
+			}
 			oc.Write([]byte("HTTP/1.1 502 Bad Gateway\r\nContent-Length: 0\r\n\r\n"))
 			return lib.Continue
 		}
@@ -328,7 +335,9 @@ func oneConfig(run *lib.Run, r *lib.RNG, idx int) {
 	do("407-wrong-credentials", "GET http://plain.test/d HTTP/1.1\r\nHost: plain.test\r\nProxy-Authorization: Basic "+base64.StdEncoding.EncodeToString([]byte(basic.user+":nope"))+"\r\n\r\n", "GET")
 	do("403-denied", "GET http://denied.test/e HTTP/1.1\r\nHost: denied.test\r\n"+auth+"\r\n", "GET")
 	do("connect-rejected-by-upstream", "CONNECT tunnel.test:443 HTTP/1.1\r\nHost: tunnel.test:443\r\n"+auth+"\r\n", "CONNECT")
-	run.Count("error_responses_scanned", 4)
+	do("connect-dropped-by-upstream", "CONNECT closes.test:443 HTTP/1.1\r\nHost: closes.test:443\r\n"+auth+"\r\n", "CONNECT")
+	do("connect-garbage-from-upstream", "CONNECT garbage.test:443 HTTP/1.1\r\nHost: garbage.test:443\r\n"+auth+"\r\n", "CONNECT")
+	run.Count("error_responses_scanned", 6)
 	// /configz and /version with the API credentials
 	if cli.APIAddr != "" {
 		if st, err := lib.Dial(cli.APIAddr); err == nil {
